@@ -166,6 +166,27 @@ def explore_tb(ctx, pid, judges, cov, failures, quick=60, thorough=1500):
     return cov, failures
 
 
+def explore_sp(ctx, pid, cov, failures, quick=60, thorough=1500):
+    """spirals (component "proxysp"): Route sets that name the proxy more than once, so that it sends the request to one of
+    its own sockets and processes it again.  Differential only: the per-event judges read ONE pass (what they would have
+    to demand of a spiral is the composition of several), so model and code are compared on what finally leaves the proxy."""
+    import proxyflows as pf
+    n = quick if ctx["tier"] == "quick" else thorough
+    blocks = pg.alloc_blocks(n)
+    cases = []
+    for i in range(n):
+        f = pf.spiral_history(ctx["rng"], blocks[i])
+        cases.append(f.s.case("sp%d" % i, {"kind": "spiral"}))
+    c2, f2 = explore(ctx, pid, cases, [], nontrivial=lambda c, ni: any(outs for outs, _ in ni))
+    cov["spiral_cases"] = {"evaluations": c2["evaluations"], "distinct_nontrivial": c2["distinct_nontrivial"],
+                           "traces_validated_against_impl": c2["traces_validated_against_impl"], "events": c2["events"]}
+    for k in ("evaluations", "distinct_nontrivial", "traces_validated_against_impl", "messages_observed", "events"):
+        if k in cov and k in c2:
+            cov[k] += c2[k]
+    failures.extend(f2)
+    return cov, failures
+
+
 def load_corpus_rebased(pid):
     cs = lib.load_corpus(pid)
     if not cs:
